@@ -618,22 +618,23 @@ func (w *World) DeliverEvent(ev Event) []error {
 	return append(errs, w.DrainReleaseQueue()...)
 }
 
-// DrainReleaseQueue plays loop(): unbind each queued pod, retrying a failing unbind up to 3 more times.
+// DrainReleaseQueue plays loop(): each queued release event is handed to the goroutine body of loop() itself (exported
+// from the working tree by the overlay, instr/gobody.go: unbind, count the retry, re-queue up to 3 times); a re-queued
+// event is handled again after a scheduling point, which stands for the back-off sleep.
 func (w *World) DrainReleaseQueue() []error {
 	var errs []error
+	seen := map[interface{}]int{}
 	for {
-		pod, ok := w.Plugin.VerifPopReleaseEvent()
+		ev, ok := w.Plugin.VerifPopRelease()
 		if !ok {
 			return errs
 		}
-		for try := 0; try <= 3; try++ {
-			err := w.Plugin.VerifUnbind(pod)
-			if err == nil {
-				break
-			}
-			errs = append(errs, err)
-			coop.Point("retry", "unbind "+pod.Name)
+		if seen[ev] > 0 {
+			errs = append(errs, fmt.Errorf("unbind of %s failed (attempt %d)", schedulerplugin.VerifReleasePod(ev), seen[ev]))
+			coop.Point("retry", "unbind "+schedulerplugin.VerifReleasePod(ev))
 		}
+		seen[ev]++
+		w.Plugin.VerifLoopBody(ev)
 	}
 }
 
